@@ -9,11 +9,9 @@ From PahoV Require Import Base.Prelude Link.Conn Link.ConnCheck Link.ConnInv.
 Definition is_nil {A} (l : list A) : bool := match l with [] => true | _ => false end.
 
 
-(* D (F-C10d, open): in direct-write mode on_socket_open makes no API call (what it queues is written at
-   once, before CONNECT); in external-loop mode CONNECT is queued ahead of it, only reconnect() is excluded
-   there (the outer reconnect() would queue a second CONNECT on the socket of the inner one) *)
-Definition excl_D (c : cfg) (o : op) : bool :=
-  if c_ext c then queue_noreconn (q_open (o_scr o)) else forallb is_nil (q_open (o_scr o)).
+(* D (F-C10k): on_socket_open does not call reconnect() (the outer reconnect() then queues a second CONNECT
+   on the socket opened by the inner one); everything else it calls is queued behind CONNECT since 9f497e7 *)
+Definition excl_D (c : cfg) (o : op) : bool := queue_noreconn (q_open (o_scr o)).
 (* R (F-C10i, open): on_socket_close / on_socket_unregister_write call neither disconnect() nor reconnect();
    on_socket_register_write does not call reconnect() *)
 Definition excl_R (o : op) : bool :=
